@@ -764,7 +764,7 @@ def fill(case):
 
 class C20(Prop):
     id = "C20"
-    lean_modules = ["VivModel.Props.C20"]
+    lean_modules = ["VivModel.Props.C20", "VivModel.Props.C20Src"]
     build_targets = ["VivModel.Model.Components", "VivModel.Model.Proto"]
     driver = "C20"
     technique = ("Lean 4 proof (refinement of the explicit-stack loop to the pre-order traversal; invariants over registration "
